@@ -56,73 +56,96 @@ theorem C05.accepted_never_must_reject_fails_at_unpatched :
     (assignOkUnpatched .portOut (.uns 2) (.rt (.uns 3)) = true ∧ mustReject (.uns 2) (.rt (.uns 3)) = true) := by
   decide
 
-/-- EXACT CHARACTERISATION for the assignment operators (`<<=` `.next` `^=` `.push` `@=` `.value`): outside the
-    pairs the sentence is silent about (`grey`: truthiness into bool, run-time Integer sources, ...), the compiler
-    accepts exactly the conversions the property lists as value preserving. -/
-theorem C05.assignOk_iff_allowed (t : Ty) (s : Src) (hg : grey t s = false) :
-    assignOk .assign t s = allowed t s := by
+namespace CohdlVerif.C05
+/-- EXACTLY the pairs the assignment operators accept although the sentence of the property does not list them
+    (all of them are `grey`: neither listed as value preserving nor as an error):
+    Python truthiness into bool (a vector or run-time Integer becomes `x /= 0`, Null is False, Full is True, "0"/"1"),
+    and a run-time Integer into Unsigned / Signed (the known finding: `to_unsigned / to_signed` wrap). -/
+def acceptedGrey : Ty → Src → Bool
+  | .bool, .rt (.bv _) | .bool, .rt (.uns _) | .bool, .rt (.sgn _) | .bool, .rt .int => true
+  | .bool, .null | .bool, .full => true
+  | .bool, .str bs => bs.length == 1
+  | .uns _, .rt .int | .sgn _, .rt .int => true
+  | _, _ => false
+end CohdlVerif.C05
+
+/-- EXACT CHARACTERISATION for the assignment operators (`<<=` `.next` `^=` `.push` `@=` `.value`), no restriction:
+    the compiler accepts exactly the conversions the property lists as value preserving plus the explicitly named
+    `acceptedGrey` pairs (truthiness into bool, run-time Integer into Unsigned/Signed). -/
+theorem C05.assignOk_iff_allowed (t : Ty) (s : Src) :
+    assignOk .assign t s = (allowed t s || acceptedGrey t s) := by
   cases t <;> cases s <;> (try rename_i st; cases st) <;>
-    simp_all [grey, assignOk, assignFront, backOk, castModel, vhdlTarget, literalBackOk, allowed, mustReject, inRange,
+    simp [acceptedGrey, assignOk, assignFront, backOk, castModel, vhdlTarget, literalBackOk, allowed, inRange,
       sgnMin, sgnMax, unsMax] <;>
     (try omega) <;>
     (try (rename_i n; have := two_pow_pos (n - 1); omega)) <;>
     (try (intro h; split <;> (try simp) <;> (try split) <;> (try simp) <;> omega))
 
+/-- the named pairs are outside the sentence: neither `allowed` nor `mustReject` -/
+theorem C05.acceptedGrey_is_grey (t : Ty) (s : Src) (h : acceptedGrey t s = true) : grey t s = true := by
+  cases t <;> cases s <;> (try rename_i st; cases st) <;> simp_all [acceptedGrey, grey, allowed, mustReject]
+
+/-- corollary: on every pair the sentence speaks about, accepted <=> allowed -/
+theorem C05.assignOk_iff_allowed_nongrey (t : Ty) (s : Src) (hg : grey t s = false) :
+    assignOk .assign t s = allowed t s := by
+  rw [C05.assignOk_iff_allowed]
+  cases hgr : acceptedGrey t s with
+  | false => simp
+  | true => rw [C05.acceptedGrey_is_grey t s hgr] at hg; exact absurd hg (by simp)
+
+example : acceptedGrey .bool (.rt (.uns 3)) = true ∧ acceptedGrey (.sgn 3) (.rt .int) = true ∧
+    acceptedGrey (.uns 3) (.rt (.sgn 3)) = false := by decide
+
 example : grey (.sgn 5) (.rt (.uns 5)) = false ∧ grey (.uns 3) (.lit 8) = false ∧ grey (.bool) (.rt (.uns 3)) = true := by
   decide
 
-/-- VALUE PRESERVATION of the printed cast.  Full statement: for EVERY form f,
-      assignOk f t (rt s) -> s != Integer -> inRange s x ->
-      exists e, castModel (vhdlTarget f t) t s = some e  /\  the value of e is well typed for the declared VHDL object
-                /\  decodeAs t (evalV e (encode s x)) = convert t s x.
-    Proved here for the forms whose VHDL object has the target's own type (operators `<<= .next ^= .push @= .value`,
-    declarations, port connections) - all widths, all values.  Missing: slice / element / view targets
-    (`vhdlTarget f t != t`, 9 more (root kind, view kind) combinations of the same lemmas); those are covered by the
-    exhaustive simulation tie of harness/c05.py only. -/
-theorem C05.cast_preserves_partial (f : Form) (hf : f = .assign ∨ f = .init ∨ f = .portIn ∨ f = .portOut)
-    (t s : Ty) (x : Int) (h : assignOk f t (.rt s) = true) (hs : s ≠ .int)
+/-- VALUE PRESERVATION of the printed cast, EVERY form (assignment operators, declarations, ports, slice / element
+    targets, `.unsigned/.signed/.bitvector` view targets). -/
+theorem C05.cast_preserves (f : Form) (t s : Ty) (x : Int) (h : assignOk f t (.rt s) = true) (hs : s ≠ .int)
     (hwt : t.wf = true) (hws : s.wf = true) (hx : inRange s x = true) :
     ∃ e, castModel (vhdlTarget f t) t s = some e ∧
       vhdlWellTyped (vhdlTarget f t) (evalV e (encode s x)) = true ∧
       decodeAs t (evalV e (encode s x)) = some (convert t s x) := by
-  have hvt : vhdlTarget f t = t := by
-    rcases hf with rfl | rfl | rfl | rfl <;> cases t <;> rfl
-  rw [hvt]
-  -- in all four forms acceptance implies that the back end finds a cast and that the pair is not a named error
   have hnr := C05.accepted_never_must_reject f t (.rt s) h
-  have hback : (castModel t t s).isSome = true := by
-    rcases hf with rfl | rfl | rfl | rfl
-    · simp only [assignOk, Bool.and_eq_true, backOk, hvt] at h; exact h.2
-    · simp only [assignOk, Bool.and_eq_true, backOk, hvt] at h; exact h.2
-    · simp only [assignOk, Bool.and_eq_true, beq_iff_eq] at h
-      obtain ⟨rfl, h2⟩ := h
-      cases s <;> simp_all [castModel, assignFront]
-    · simp only [assignOk, Bool.and_eq_true, beq_iff_eq] at h
-      obtain ⟨rfl, h2⟩ := h
-      cases s <;> simp_all [castModel, assignFront]
-  change CastGood t t s x
-  cases t <;> cases s <;> simp_all [castModel, mustReject, Ty.wf]
-  all_goals first
-    | exact cast_bit_bit x hx
-    | exact cast_bit_bool x hx
-    | exact cast_bool_bit x hx
-    | exact cast_bool_bool x hx
-    | exact cast_bool_bv _ x hx
-    | exact cast_bool_uns _ x hx
-    | exact cast_bool_sgn _ hws x hx
-    | exact cast_same_bv _ x hx
-    | exact cast_bv_uns _ x hx
-    | exact cast_bv_sgn _ x
-    | exact cast_uns_bv _ x hx
-    | exact cast_sgn_bv _ x hx
-    | exact cast_sgn_uns _ _ x hnr hx
-    | exact cast_int_uns _ x hx
-    | exact cast_int_sgn _ hws x hx
-    | (rename_i n m
-       by_cases e : n = m
-       · subst e; first | exact cast_same_uns _ x hx | exact cast_same_sgn _ hws x hx
-       · first | exact cast_uns_uns n m x (by omega) hx | exact cast_sgn_sgn n m hws x (by omega) hx)
+  by_cases hvt : vhdlTarget f t = t
+  · rw [hvt]
+    have hback : (castModel t t s).isSome = true := by
+      cases f with
+      | assign | sub _ | view _ | init =>
+        all_goals (simp only [assignOk, Bool.and_eq_true, backOk, hvt] at h; exact h.2)
+      | portIn | portOut =>
+        all_goals
+          simp only [assignOk, Bool.and_eq_true, beq_iff_eq] at h
+          obtain ⟨rfl, h2⟩ := h
+          cases s <;> simp_all [castModel, assignFront]
+    exact castGood_plain t s x hnr hback hs hwt hws hx
+  · -- the VHDL object is a root vector of another kind: slice / view target
+    obtain ⟨k, hk, htv, hfront, hbk⟩ : ∃ k, vhdlTarget f t = mkVec k t.width ∧ t.isVec = true ∧
+        assignFront t (.rt s) = true ∧ (castModel (mkVec k t.width) t s).isSome = true := by
+      cases f with
+      | assign | init | portIn | portOut => all_goals exact absurd (by cases t <;> rfl) hvt
+      | sub k | view k =>
+        all_goals
+          simp only [assignOk, Bool.and_eq_true, backOk] at h
+          cases t <;> first
+            | exact absurd rfl hvt
+            | exact ⟨k, rfl, rfl, h.1, h.2⟩
+    have hsv : s.isVec = true := by
+      cases t <;> simp [Ty.isVec] at htv <;> cases s <;> simp_all [assignFront, Ty.isVec]
+    rw [hk]
+    obtain ⟨e, he⟩ := Option.isSome_iff_exists.mp hbk
+    obtain ⟨e0, he0, _, hdec0⟩ := castGood_plain t s x hnr (front_plain_cast t s htv hsv hfront) hs hwt hws hx
+    obtain ⟨hcore, hshape, hkind⟩ := castModel_shape k t s e e0 htv hsv hfront he he0
+    obtain ⟨k0, p, hv0⟩ := decodeAs_vec t htv _ _ hdec0
+    obtain ⟨kc, hvc⟩ := evalV_core_of_vec e0 _ k0 _ p hv0
+    have hkc : kc = srcKind s := core_kind s hsv x (core e0) t.width hshape kc _ p hvc
+    have hve := evalV_of_core e (encode s x) kc _ p (by rw [hcore]; exact hvc)
+    refine ⟨e, he, ?_, ?_⟩
+    · rw [hve, hkc, hkind]; exact wellTyped_mkVec k _ p
+    · rw [hve, decodeAs_kind t _ k0, ← hv0]; exact hdec0
 
+example : assignOk (.view .uns) (.sgn 8) (.rt (.sgn 4)) = true ∧ assignOk (.sub .sgn) (.bv 3) (.rt (.uns 3)) = true ∧
+    castModel (.uns 8) (.sgn 8) (.sgn 4) = some (.asUns (.asSlv (.resize .x 8))) := by decide
 
 example : assignOk .assign (.sgn 5) (.rt (.uns 3)) = true ∧ inRange (.uns 3) 7 = true := by decide
 
@@ -221,3 +244,91 @@ theorem C05.merge_sound (t : Ty) (a b : Src) (h : mergeOk t [a, b] = true) :
 
 example : mergeOk (.uns 2) [.rt (.bv 2), .rt (.sgn 2)] = true ∧ mergeOk (.uns 4) [.rt (.uns 2), .rt (.uns 3)] = true ∧
     mergeOk (.uns 4) [.rt (.sgn 4), .rt (.uns 4)] = false := by decide
+
+/-- THE VALUE OF AN ACCEPTED MERGE (any number of alternatives; if-expression, return paths, select_with):
+    whichever alternative `o` is taken, the target receives that alternative converted to the TARGET -
+    Null / Full fill the target's own width, an int / bool literal arrives as its number, a run-time alternative as
+    `convert target source` - also when the merge goes through a temporary of the join type of `_try_join`.
+    Hypotheses: the direct conversion alternative -> target is one the property permits (`allowed`); the taken
+    alternative is not a bit string; no alternative is a run-time Integer (known finding); vector widths are positive. -/
+theorem C05.merge_preserves (t : Ty) (opts : List Src) (o : Src) (x : Int)
+    (hok : mergeOk t opts = true) (ho : o ∈ opts) (hal : allowed t o = true)
+    (hstr : ∀ bs, o ≠ .str bs) (hopts : ∀ s, .rt s ∈ opts → s ≠ .int ∧ s.wf = true)
+    (hwt : t.wf = true) (hx' : ∀ s, o = .rt s → inRange s x = true) :
+    mergeValue t opts o x = (match o with | .rt s => some (convert t s x) | l => convertLit t l) := by
+  have hint : o ≠ .rt .int := fun h => (hopts .int (h ▸ ho)).1 rfl
+  have hx : ∀ s, o = .rt s → s.wf = true ∧ inRange s x = true :=
+    fun s hs => ⟨(hopts s (hs ▸ ho)).2, hx' s hs⟩
+  have hjoin : ∀ r, tryJoin opts = some r → r ≠ .int ∧ r.wf = true := by
+    intro r hr
+    rcases tryJoin_type opts r hr with h | h
+    · exact hopts r h
+    · subst h; exact ⟨by simp, rfl⟩
+  unfold mergeOk at hok
+  unfold mergeValue
+  cases hsl : sameLiteral opts with
+  | some a =>
+    obtain ⟨hlit, hall⟩ := sameLiteral_mem opts a hsl
+    have hoa := hall o ho
+    subst hoa
+    simp only []
+    cases o with
+    | rt s => exact absurd hlit (by simp [Src.isLit])
+    | lit _ | blit _ | null | full | str _ => all_goals rfl
+  | none =>
+    rw [hsl] at hok
+    simp only []
+    unfold mergeJoin at hok
+    cases hj : tryJoin opts with
+    | none =>
+      rw [hj] at hok
+      simp only []
+      have hoo := List.all_eq_true.mp hok o ho
+      simp only [Bool.and_eq_true] at hoo
+      cases o with
+      | rt s =>
+        obtain ⟨hws, hxs⟩ := hx s rfl
+        have hs : s ≠ .int := fun h => hint (by rw [h])
+        rw [backOk_assign_rt] at hoo
+        exact assignValue_rt t s x (initFront_rt t s hoo.1) hoo.2 hs hwt hws hxs
+      | lit _ | blit _ | null | full | str _ => all_goals rfl
+    | some r =>
+      rw [hj] at hok
+      simp only []
+      simp only [Bool.and_eq_true] at hok
+      obtain ⟨hrn, hwr⟩ := hjoin r hj
+      have hoo := List.all_eq_true.mp hok.1 o ho
+      simp only [Bool.and_eq_true] at hoo
+      have htr : assignFront t (.rt r) = true ∧ (castModel t t r).isSome = true := by
+        have := hok.2
+        simp only [assignOk, Bool.and_eq_true, backOk_assign_rt] at this
+        exact this
+      cases o with
+      | rt s =>
+        obtain ⟨hws, hxs⟩ := hx s rfl
+        have hs : s ≠ .int := fun h => hint (by rw [h])
+        rw [backOk_assign_rt] at hoo
+        have hrs := initFront_rt r s hoo.1
+        rw [assignValue_rt r s x hrs hoo.2 hs hwr hws hxs]
+        simp only [Option.bind_some]
+        rw [assignValue_rt t r _ htr.1 htr.2 hrn hwt hwr (convert_inRange r s x hrs hs hwr hws hxs)]
+        rw [convert_comp t r s x hrs htr.1 hal hs hrn hws hwr hxs]
+      | lit k =>
+        obtain ⟨y, hy, hyr, hc⟩ := literal_comp t r (.lit k) (Or.inl ⟨k, rfl⟩) hoo.1 htr.1 hal hrn
+        simp only [assignValue, hy, Option.bind_some]
+        have := assignValue_rt t r y htr.1 htr.2 hrn hwt hwr hyr
+        simp only [assignValue] at this
+        rw [this, hc]
+      | blit b =>
+        obtain ⟨y, hy, hyr, hc⟩ := literal_comp t r (.blit b) (Or.inr ⟨b, rfl⟩) hoo.1 htr.1 hal hrn
+        simp only [assignValue, hy, Option.bind_some]
+        have := assignValue_rt t r y htr.1 htr.2 hrn hwt hwr hyr
+        simp only [assignValue] at this
+        rw [this, hc]
+      | null => exact absurd rfl (tryJoin_no_nullfull opts r hj _ ho).1
+      | full => exact absurd rfl (tryJoin_no_nullfull opts r hj _ ho).2
+      | str bs => exact absurd rfl (hstr bs)
+
+example : mergeOk (.uns 8) [.rt (.uns 4), .full] = true ∧ mergeValue (.uns 8) [.rt (.uns 4), .full] .full 0 = some 255 ∧
+    mergeValue (.sgn 8) [.rt (.uns 4), .lit 3, .rt (.uns 4)] (.rt (.uns 4)) 9 = some 9 ∧ tryJoin [.rt (.uns 4), .lit 3, .rt (.uns 4)] = some (.uns 4) := by
+  decide
